@@ -39,6 +39,7 @@ def shards(tier, seed):
     out.append({'sub': 'quote', 'prefix': '', 'lens': [0, 1], 'bounds': f'all strings of length <= {lq} over {len(SIGMA_STR)} chars; numbers; None'})
     for a in SIGMA_STR:
         out.append({'sub': 'quote', 'prefix': a, 'lens': list(range(1, lq)), 'bounds': f'all strings of length <= {lq} over {len(SIGMA_STR)} chars; numbers; None'})
+    out.append({'sub': 'quote', 'long': True, 'bounds': f'all strings of length <= {lq} over {len(SIGMA_STR)} chars; numbers; None; deterministic long strings (every alphabet character repeated / cycled to lengths 50, 1000, 5000)'})
     out.append({'sub': 'quote', 'values': True, 'bounds': f'all strings of length <= {lq} over {len(SIGMA_STR)} chars; numbers; None'})
     num = SIGMA_NUM if tier == 'quick' else SIGMA_NUM[:15]
     for a in num:
@@ -49,6 +50,13 @@ def shards(tier, seed):
 
 def cases(shard):
     if shard['sub'] == 'quote':
+        if shard.get('long'):
+            for n in (50, 1000, 5000):
+                for c in SIGMA_STR:
+                    yield {'x': c * n}
+                    yield {'x': ('a' + c) * (n // 2)}
+                yield {'x': (''.join(SIGMA_STR) * (n // len(SIGMA_STR) + 1))[:n]}
+            return
         if shard.get('values'):
             for v in (None, 0, -1, 1.5, 1e22, float('inf'), -0.0, 10 ** 30, True):
                 yield {'v': repr(v)}
